@@ -279,6 +279,12 @@ func (w *walker) value(v reflect.Value, ctx *ir.Func) {
 			return
 		}
 		if !w.locals[f][x.Block] {
+			for g, ls := range w.locals {
+				if ls[x.Block] {
+					w.add("scope-leak", "blockaddress(%s, %s) holds the block of another function, %s", f.Ident(), x.Block.Ident(), g.Ident())
+					return
+				}
+			}
 			w.add("dummy-block", "blockaddress(%s, %s) holds a block that is not a block of that function", f.Ident(), x.Block.Ident())
 		}
 		return
